@@ -36,6 +36,7 @@
    Ghost fields (not in the C structs): calls, had, cancelled, released, horig. *)
 From Coq Require Import Arith List Bool Lia.
 Import ListNotations.
+From Cffi Require Import C21.Gen.
 
 Inductive kind :=
 | KOwn
@@ -213,6 +214,8 @@ Inductive op :=
 | ONewPy (a : nat)                                 (* v = Obj() / bytearray subclass *)
 | OSetRef (x y : nat)                              (* x.refs.append(y) *)
 | OFromBuffer (src a : nat)                        (* v = ffi.from_buffer(src) *)
+| OFromBufferFail (src tag : nat)                  (* ffi.from_buffer(src) that fails on the error path [tag]
+                                                      of direct_from_buffer (C21/Gen.v) *)
 | ONewHandle (x a : nat)                           (* v = ffi.new_handle(x) *)
 | OFromHandle (h : nat)                            (* v = ffi.from_handle(h) *)
 | OCollect (G : list nat)                          (* the runtime frees the set G *)
@@ -228,6 +231,25 @@ Definition finalize_at (s : state) (i : nat) : state :=
   set_obj s i (mark_released (run_dtor (get s i))).
 
 Definition dtor_of (has_free : bool) : option (option nat) := if has_free then Some None else None.
+
+(* direct_from_buffer :7205 leaves through `goto error1` / `goto error2`; error2 releases the
+   Py_buffer, error1 only frees the view struct.  A failure path taken AFTER
+   PyObject_GetBuffer succeeded that does not pass PyBuffer_Release leaks the export: the
+   source stays locked and referenced for ever (a phantom exporter that nobody can release). *)
+Definition path_leaks (tag : nat) : bool :=
+  match find (fun p => Nat.eqb (fst (fst p)) tag) gen_frombuf_paths with
+  | Some (_, after_getbuffer, releases) => after_getbuffer && negb releases
+  | None => false
+  end.
+
+Definition leak_export (s : state) (src : nat) : state :=
+  match k (get s src) with
+  | KPy refs ex =>
+      let o := get s src in
+      set_obj s src (mkobj (KPy refs (next s :: ex)) (alive o) (S (roots o)) (addr o) (calls o) (had o)
+                           (cancelled o) (released o) (horig o))
+  | _ => s
+  end.
 
 Definition step (s : state) (o : op) : state :=
   match o with
@@ -291,6 +313,8 @@ Definition step (s : state) (o : op) : state :=
         | _ => s
         end
       else s
+  | OFromBufferFail src tag =>
+      if usable s src && path_leaks tag then leak_export s src else s
   | ONewHandle x a =>
       if usable s x && addr_free s a then alloc s (fresh (KHandle x) a 1 false (Some x)) else s
   | OFromHandle h =>
